@@ -544,7 +544,7 @@ pub fn net_event(a: &Args, grams: &[(String, Vec<u8>)]) -> Value {
     let resolver_name = rname.clone();
     let resolver_thread = std::thread::spawn(move || {
         crate::util::install_panic_hook();
-        let mut outcomes: Vec<String> = vec![];
+        let mut outcomes: Vec<Vec<String>> = vec![];
         let r = guarded(|| {
             let mut res = simple_mdns::sync_discovery::OneShotMdnsResolver::new().map_err(|e| e.to_string())?;
             res.set_query_timeout(Duration::from_millis(700));
@@ -552,17 +552,17 @@ pub fn net_event(a: &Args, grams: &[(String, Vec<u8>)]) -> Value {
             let mut v = vec![];
             for _ in 0..4 {
                 v.push(match res.query_service_address(&resolver_name) {
-                    Ok(Some(ip)) => format!("some {ip}"),
-                    Ok(None) => "none".to_string(),
-                    Err(e) => format!("err {e}"),
+                    Ok(Some(ip)) => vec!["some".to_string(), ip.to_string()],
+                    Ok(None) => vec!["none".to_string()],
+                    Err(e) => vec!["err".to_string(), e.to_string()],
                 });
             }
-            Ok::<Vec<String>, String>(v)
+            Ok::<Vec<Vec<String>>, String>(v)
         });
         match r {
             Ok(Ok(v)) => outcomes = v,
-            Ok(Err(e)) => outcomes.push(format!("setup-failed {e}")),
-            Err(at) => outcomes.push(format!("panic {at}")),
+            Ok(Err(e)) => outcomes.push(vec!["setup-failed".to_string(), e]),
+            Err(at) => outcomes.push(vec!["panic".to_string(), at]),
         }
         outcomes
     });
@@ -587,7 +587,7 @@ pub fn net_event(a: &Args, grams: &[(String, Vec<u8>)]) -> Value {
         }
     }
     std::thread::sleep(Duration::from_millis(500));
-    let resolver_outcomes = resolver_thread.join().unwrap_or_else(|_| vec!["panic thread".to_string()]);
+    let resolver_outcomes = resolver_thread.join().unwrap_or_else(|_| vec![vec!["panic".to_string(), "thread".to_string()]]);
     let after_responder = probe(&rname, simple_dns::TYPE::A.into(), 0x7703, 6);
     let after_discovery = probe(&sname, simple_dns::QTYPE::ANY, 0x7704, 6);
     let after_aresponder = before_aresponder && probe(&arname, simple_dns::TYPE::A.into(), 0x7713, 6);
